@@ -174,26 +174,61 @@ def theorems_of(props_file: str) -> List[str]:
     return re.findall(r"^\s*Theorem\s+([A-Za-z0-9_']+)", src, flags=re.M)
 
 
+def require_closure(roots: Sequence[str]) -> List[str]:
+    """.v files (relative to coq/) reachable from the given files through `From DV Require ...` lines"""
+    seen, todo = [], list(roots)
+    while todo:
+        f = todo.pop()
+        if f in seen:
+            continue
+        try:
+            src = open(os.path.join(COQ, f)).read()
+        except OSError:
+            continue
+        seen.append(f)
+        src = re.sub(r"\(\*.*?\*\)", "", src, flags=re.S)
+        for m in re.finditer(r"From\s+DV\s+Require\s+(?:Import\s+|Export\s+)?(.*?)\.\s", src + " ", flags=re.S):
+            for mod in m.group(1).split():
+                todo.append(mod.replace(".", "/") + ".v")
+        for m in re.finditer(r"(?<!DV\s)Require\s+(?:Import\s+|Export\s+)?(.*?)\.\s", src + " ", flags=re.S):
+            for mod in m.group(1).split():
+                if mod.startswith("DV."):
+                    todo.append(mod[3:].replace(".", "/") + ".v")
+    return sorted(seen)
+
+
+_VERNAC_BAD = re.compile(r"^(Local\s+|Global\s+|Polymorphic\s+|Monomorphic\s+|#\[[^\]]*\]\s*)*"
+                         r"(Axiom|Axioms|Parameter|Parameters|Conjecture|Conjectures|Admitted|Admit\s+Obligations|"
+                         r"Unset\s+Guard\s+Checking|Unset\s+Positivity\s+Checking|Unset\s+Universe\s+Checking)\b")
+_ANYWHERE_BAD = re.compile(r"\b(admit|give_up|bypass_check|native_compute|native_cast_no_check)\b|type-in-type|impredicative-set")
+
+
 def lint_sources(files: Sequence[str]) -> List[str]:
+    """forbidden vernacular (at the start of a sentence) and tactics (anywhere), comments stripped;
+    Variable/Hypothesis only inside a Section"""
     bad = []
     for f in files:
         try:
             src = open(os.path.join(COQ, f)).read()
         except OSError:
             continue
-        src_nc = re.sub(r"\(\*.*?\*\)", "", src, flags=re.S)
-        for m in FORBIDDEN.finditer(src_nc):
+        src_nc = re.sub(r"\(\*.*?\*\)", " ", src, flags=re.S)
+        src_nc = re.sub(r'"[^"]*"', '""', src_nc)
+        for m in _ANYWHERE_BAD.finditer(src_nc):
             bad.append(f"{f}: forbidden token {m.group(0)!r}")
-        if re.search(r"^\s*(Variable|Variables|Hypothesis|Hypotheses|Context)\b", src_nc, flags=re.M):
-            # must be inside a Section
-            depth = 0
-            for line in src_nc.split("\n"):
-                if re.match(r"\s*Section\s+\w+", line):
-                    depth += 1
-                elif re.match(r"\s*End\s+\w+", line) and depth > 0:
-                    depth -= 1
-                elif re.match(r"\s*(Variable|Variables|Hypothesis|Hypotheses)\b", line) and depth == 0:
-                    bad.append(f"{f}: Variable/Hypothesis outside a Section")
+        depth = 0
+        for sent in re.split(r"\.(?:\s+|$)", src_nc):
+            st = sent.strip()
+            st = re.sub(r"^(?:[-+*]+\s*|\{\s*|\}\s*)+", "", st)
+            m = _VERNAC_BAD.match(st)
+            if m:
+                bad.append(f"{f}: forbidden vernacular {m.group(2)!r}")
+            if re.match(r"(Section|Module)\s+\w+", st):
+                depth += 1
+            elif re.match(r"End\s+\w+", st) and depth > 0:
+                depth -= 1
+            elif re.match(r"(Variable|Variables|Hypothesis|Hypotheses|Context)\b", st) and depth == 0:
+                bad.append(f"{f}: Variable/Hypothesis/Context outside a Section")
     return bad
 
 
